@@ -224,6 +224,9 @@ def battery(pid):
               ("e2e_one_date_header_from_the_proxy", scenario_rs(elevated=False, dest=("169.254.169.254", 80), key=True, raw_request=req), count("x-ms-azure-host-date") + ' && !o.host_requests[0].contains("1970")', "exactly one date header, not the client's"),
               ("e2e_one_date_header_from_the_proxy_on_the_exempt_upload_path", scenario_rs(dest=("168.63.129.16", 32526), key=True, raw_request="PUT /vmAgentLog HTTP/1.1\r\nhost: x\r\n" + hdrs.replace('\\"', '"') + "content-length: 3\r\n\r\nabc"),
                count("x-ms-azure-host-date") + ' && !o.host_requests[0].contains("1970") && ' + count("x-ms-azure-host-claims").split(" && ", 1)[1] + ' && !o.host_requests[0].contains("spoof2")', "the signature-exempt upload path carries exactly one proxy-made date and claims header too"),
+              ("e2e_client_authorization_naming_the_current_key_never_reaches_host", scenario_rs(elevated=False, dest=("169.254.169.254", 80), key=True,
+                                                                                                  raw_request="GET /metadata/instance HTTP/1.1\r\nhost: x\r\nx-ms-azure-host-authorization: Azure-HMAC-SHA256 9cf81e97-0316-4ad3-94a7-8ccbdee8ddbf deadbeef\r\n\r\n"),
+               count("x-ms-azure-host-authorization") + ' && !o.host_requests[0].contains("deadbeef")', "a client authorization value that names the scheme and the current key id is replaced like any other"),
               ("e2e_client_authorization_never_reaches_host_when_signed", scenario_rs(elevated=False, dest=("169.254.169.254", 80), key=True, raw_request=req), count("x-ms-azure-host-authorization") + ' && !o.host_requests[0].contains("deadbeef")', "the client's authorization header is replaced by the proxy's")]
     if pid == "C11":
         T += [("e2e_enforce_deny_403_recorded_once", scenario_rs(dest=("169.254.169.254", 80), elevated=False, rules=("enforce", "deny")), "o.status == 403 && o.host_requests.is_empty() && o.failed_summaries == 1", "enforce: 403, nothing relayed, one record"),
